@@ -1927,5 +1927,113 @@ theorem toDragSource_ext {cfg : Cfg} {P : LogItem → Prop} {fuel : Nat} {st st'
   obtain ⟨⟨st1, r⟩, h1, h⟩ := out_bind_eq_ok.1 h
   exact (handleMouse_ext (hp _ _) fuel _ _ _ _ _ (sameKind.rfl' _) h1).trans (dropResult_ext (hp 0 0).toQuiet (lift_eq_ok.1 h))
 
+/-! ### decidable checks for concrete states (used by the non-vacuity examples) -/
+
+def wfCheck (t : Tree) : Bool :=
+  (List.range t.wins.size).all fun i =>
+    match t.wins[i]? with
+    | none => true
+    | some w =>
+      w.freed || (decide (1 ≤ w.refcount) && w.children.all fun c =>
+        match t.wins[c]? with
+        | none => true
+        | some cw => cw.parent == some i)
+
+theorem wfCheck_sound {t : Tree} (h : wfCheck t = true) : WF t := by
+  unfold wfCheck at h
+  rw [List.all_eq_true] at h
+  have hi : ∀ (i : WinTree.Id) (w : Win), t.wins[i]? = some w → w.freed = false →
+      1 ≤ w.refcount ∧ ∀ c ∈ w.children, ∀ cw, t.wins[c]? = some cw → cw.parent = some i := by
+    intro i w hw hf
+    have hlt : i < t.wins.size := (Array.getElem?_eq_some_iff.1 hw).1
+    have := h i (List.mem_range.2 hlt)
+    simp only [hw, hf, Bool.false_or, Bool.and_eq_true, decide_eq_true_eq, List.all_eq_true] at this
+    refine ⟨this.1, ?_⟩
+    intro c hc cw hcw
+    have := this.2 c hc
+    simp only [hcw, beq_iff_eq] at this
+    exact this
+  exact ⟨fun i w hw hf => (hi i w hw hf).1, fun i c w cw hw hf hc hcw => (hi i w hw hf).2 c hc cw hcw⟩
+
+def staticCheck (binds : Array Binding) : Bool :=
+  binds.toList.all fun b => b.entries.all fun e => e.actions.isEmpty
+
+theorem staticCheck_sound {binds : Array Binding} (h : staticCheck binds = true) : Static binds := by
+  intro i b hb e he
+  unfold staticCheck at h
+  rw [List.all_eq_true] at h
+  have hm : b ∈ binds.toList := by
+    rw [Array.mem_toList_iff]
+    exact Array.mem_of_getElem? hb
+  have := h b hm
+  rw [List.all_eq_true] at this
+  have := this e he
+  simpa using this
+
+/-! ### helpers of Props/C14.lean -/
+
+theorem shownOffer_routed (cfg : Cfg) (hc : cfg.shown = true) (kind : Kind) (ev : Ev) : Routed cfg kind ev ShownOffer :=
+  { destroyed := fun _ => trivial, refused := fun _ => trivial, call := fun _ _ _ _ _ _ => trivial,
+    offer := fun _ _ _ _ h => h hc }
+
+theorem carries_routed (cfg : Cfg) (ev : Ev) (Q : Ev → Prop) (hQ : ∀ e, sameKind ev e → Q e) :
+    Routed cfg .mouse ev (Carries Q) :=
+  { destroyed := fun _ e h => by simp [evOf] at h,
+    refused := fun _ e h => by simp [evOf] at h,
+    call := fun _ _ _ _ e hk e' h => by simp only [evOf, Option.some.injEq] at h; subst h; exact hQ e hk,
+    offer := fun _ e _ hk _ e' h => by simp only [evOf, Option.some.injEq] at h; subst h; exact hQ e hk }
+
+theorem onTermMouse_ok {cfg : Cfg} {fuel : Nat} {st st' : St} {ev : Ev} {r : Bool}
+    (h : onTermMouse cfg fuel st ev = Out.ok (st', r)) :
+    ∃ st0 st1 st2 handled st3 st4, refWin st 0 = Res.ok st0 ∧ dragPrelude cfg fuel st0 ev = Out.ok st1 ∧
+      handleMouse cfg fuel st1 0 ev = Out.ok (st2, handled) ∧ dragOutside cfg fuel st2 ev handled = Out.ok st3 ∧
+      dropResult cfg st3 handled = Res.ok st4 ∧ unrefLogged st4 0 = Res.ok st' ∧ r = handled.isSome := by
+  unfold onTermMouse at h
+  obtain ⟨st0, h0, h⟩ := lift_bind_eq_ok.1 h
+  obtain ⟨st1, h1, h⟩ := out_bind_eq_ok.1 h
+  obtain ⟨⟨st2, handled⟩, h2, h⟩ := out_bind_eq_ok.1 h
+  obtain ⟨st3, h3, h⟩ := out_bind_eq_ok.1 h
+  obtain ⟨st4, h4, h⟩ := lift_bind_eq_ok.1 h
+  obtain ⟨st5, h5, h⟩ := lift_bind_eq_ok.1 h
+  simp only [out_pure, Out.ok.injEq, Prod.mk.injEq] at h
+  obtain ⟨rfl, rfl⟩ := h
+  exact ⟨st0, st1, st2, handled, st3, st4, h0, h1, h2, h3, h4, h5, rfl⟩
+
+theorem dragOutside_ext {cfg : Cfg} {P : LogItem → Prop} {fuel : Nat} {st st' : St} {ev : Ev} {handled : Option WinTree.Id}
+    (hp : ∀ l c, Routed cfg .mouse { type := evDragOutside, button := ev.button, line := l, col := c } P)
+    (h : dragOutside cfg fuel st ev handled = Out.ok st') : Ext P st st' := by
+  unfold dragOutside at h
+  cases hs : st.tree.root.dragSource with
+  | none => simp only [hs, out_pure, Out.ok.injEq] at h; subst h; exact Ext.refl _ _
+  | some src =>
+    simp only [hs] at h
+    by_cases hc : (ev.type = evDrag && handled ≠ some src) = true
+    · rw [if_pos hc] at h; exact toDragSource_ext hp h
+    · rw [if_neg hc] at h; simp only [out_pure, Out.ok.injEq] at h; subst h; exact Ext.refl _ _
+
+theorem key_returns {x : Out (St × Bool)} {b : Bool}
+    (h : (match x with | .ok (_, d) => d == b | _ => false) = true) : ∃ st', x = Out.ok (st', b) := by
+  cases x with
+  | ok p => obtain ⟨st', d⟩ := p; simp only [beq_iff_eq] at h; subst h; exact ⟨st', rfl⟩
+  | ub w => simp at h
+  | fuel => simp at h
+
+theorem origin_of_test {t : Tree} {f : Nat} {x : WinTree.Id} {a b : Int}
+    (h : (match absGeometry t f x with | .ok g => g.top == a && g.left == b | _ => false) = true) :
+    OriginSum t (some x) a b := by
+  cases hg : absGeometry t f x with
+  | ub w => simp [hg] at h
+  | ok g =>
+    simp only [hg, Bool.and_eq_true, beq_iff_eq] at h
+    rw [← h.1, ← h.2]; exact absGeometry_origin hg
+
+theorem mouse_returns {x : Out (St × Option WinTree.Id)} {r : Option WinTree.Id}
+    (h : (match x with | .ok (_, d) => d == r | _ => false) = true) : ∃ st', x = Out.ok (st', r) := by
+  cases x with
+  | ok p => obtain ⟨st', d⟩ := p; simp only [beq_iff_eq] at h; subst h; exact ⟨st', rfl⟩
+  | ub w => simp at h
+  | fuel => simp at h
+
+
 end WinInput
 end Tickit
